@@ -67,3 +67,35 @@ func vectorTables(r *mon.Run, bshl ref.Pt) {
 		b = b.Mul(big.NewInt(256))
 	}
 }
+
+type vecTables struct {
+	odd, oddShl [64]curve.VerifLanes
+	base        [32][8]curve.VerifLanes
+	ok          bool
+}
+
+func vecSnapshot() interface{} {
+	v := &vecTables{}
+	v.odd, v.oddShl, v.base, v.ok = curve.VerifVectorTables()
+	return v
+}
+
+func vecDiff(s interface{}) string {
+	v := s.(*vecTables)
+	if !v.ok {
+		return ""
+	}
+	odd, oddShl, base, _ := curve.VerifVectorTables()
+	for j := range odd {
+		if odd[j] != v.odd[j] {
+			return fmt.Sprintf("VECTOR_ODD_MULTIPLES_OF_BASEPOINT[%d] holds %v, started as %v", j, odd[j], v.odd[j])
+		}
+		if oddShl[j] != v.oddShl[j] {
+			return fmt.Sprintf("VECTOR_ODD_MULTIPLES_OF_B_SHL_128[%d] holds %v, started as %v", j, oddShl[j], v.oddShl[j])
+		}
+	}
+	if base != v.base {
+		return "VECTOR basepoint table"
+	}
+	return ""
+}
